@@ -6,7 +6,14 @@ use crate::{check, cover};
 use collectable::TryExtend;
 use push::push_vm::stack::{Stack, StackError};
 
-pub const HARNESSES: &[(&str, fn())] = &[("c04_ops", c04_ops), ("c04_two_ops", c04_two_ops), ("c04_bulk", c04_bulk)];
+pub const HARNESSES: &[(&str, fn())] = &[
+    ("c04_ops_d0", c04_ops::<0>),
+    ("c04_ops_d1", c04_ops::<1>),
+    ("c04_ops_d2", c04_ops::<2>),
+    ("c04_ops_d3", c04_ops::<3>),
+    ("c04_ops_d4", c04_ops::<4>),
+    ("c04_bulk", c04_bulk),
+];
 
 /// reference model: contents bottom-first, current maximum
 struct Model {
@@ -30,7 +37,7 @@ fn same(s: &Stack<u8>, m: &Model) -> bool {
     if s.size() != m.n || s.max_stack_size() != m.cap {
         return false;
     }
-    stack_is(s, &m.v[..if m.n <= 16 { m.n } else { 16 }])
+    stack_matches(s, &m.v[..if m.n <= 16 { m.n } else { 16 }])
 }
 
 fn underflow(r: &StackError, req: usize, present: usize) -> bool {
@@ -185,34 +192,39 @@ fn step(s: &mut Stack<u8>, m: &mut Model) {
     check!(same(s, m), "after every operation the stack holds exactly what a LIFO sequence would (failed operations leave it untouched)");
 }
 
-pub fn c04_ops() {
-    one_op::<0>();
-    one_op::<1>();
-    one_op::<2>();
-    one_op::<3>();
-    one_op::<4>();
-    cover!(true, "all depths explored");
+pub fn c04_ops<const N: usize>() {
+    one_op::<N>();
+    cover!(true, "operation explored");
 }
 #[cfg(kani)]
 #[kani::proof]
 #[kani::unwind(8)]
-fn p_c04_ops() {
-    c04_ops()
-}
-
-/// two operations in sequence from depth 2 (a short history on top of the per-operation argument)
-pub fn c04_two_ops() {
-    let (mut s, mut m) = sym_stack::<2>();
-    step(&mut s, &mut m);
-    step(&mut s, &mut m);
-    cover!(m.n > m.cap, "a history can leave the stack above a lowered maximum");
-    cover!(m.n == 0, "a history can empty the stack");
+fn p_c04_ops_d0() {
+    c04_ops::<0>()
 }
 #[cfg(kani)]
 #[kani::proof]
 #[kani::unwind(8)]
-fn p_c04_two_ops() {
-    c04_two_ops()
+fn p_c04_ops_d1() {
+    c04_ops::<1>()
+}
+#[cfg(kani)]
+#[kani::proof]
+#[kani::unwind(8)]
+fn p_c04_ops_d2() {
+    c04_ops::<2>()
+}
+#[cfg(kani)]
+#[kani::proof]
+#[kani::unwind(8)]
+fn p_c04_ops_d3() {
+    c04_ops::<3>()
+}
+#[cfg(kani)]
+#[kani::proof]
+#[kani::unwind(8)]
+fn p_c04_ops_d4() {
+    c04_ops::<4>()
 }
 
 /// bulk insertion from a plain (non exact-size) iterator and from an exact-size one: first supplied value becomes the
